@@ -1,6 +1,113 @@
 From Coq Require Import List NArith Bool.
-From LTV.C15 Require Import Model Proofs.
+From LTV Require Import Params_gen.
+From LTV.C15 Require Import Model Proofs ProofsMid ProofsTableA ProofsTableB ProofsTableC ProofsTokens ProofsCounters.
+Import ListNotations.
+Local Open Scope N_scope.
 
+(* constants extracted from /repo satisfy what the proofs need *)
 Theorem params_ok_now : Proofs.params_ok = true.
 Proof. exact Proofs.params_ok_now. Qed.
 Print Assumptions params_ok_now.
+
+(* table_inv: after ANY op list (contacts as query / reply / timeout / invalid, clock steps,
+   housekeeping, token and tracker ops) from the initial table, the buckets are consecutive prefix
+   intervals [p*2^k, p*2^k + 2^k - 1] starting at 0 and ending at 2^160 - 1, every node id lies in
+   the range of the bucket that holds it, ids are unique inside a bucket, and no bucket holds more
+   than K = num_nodes nodes.  (sinv s = contiguous 0 buckets /\ Forall bucket_ok buckets) *)
+Theorem table_inv : forall (sha : list N -> list N) (ownid c p t0 : N) (ops : list op),
+  let s := run sha (init ownid c p t0) ops in
+  contiguous 0 (tb (tab s)) /\ Forall bucket_ok (tb (tab s)).
+Proof. intros. exact (run_sinv sha ops _ (init_sinv ownid c p t0)). Qed.
+Print Assumptions table_inv.
+
+(* consequence: the buckets partition the id space (every id < 2^160 is in exactly one bucket) *)
+Theorem table_partitions_id_space : forall sha ownid c p t0 ops id, id < idspace ->
+  let bs := tb (tab (run sha (init ownid c p t0) ops)) in
+  exists b, In b bs /\ blo b <= id /\ id <= bhi b /\
+            forall b', In b' bs -> blo b' <= id -> id <= bhi b' -> b' = b.
+Proof.
+  intros. destruct (run_sinv sha ops _ (init_sinv ownid c p t0)) as [C F].
+  exact (tinv_partition _ 0 id C F (N.le_0_l _) H).
+Qed.
+Print Assumptions table_partitions_id_space.
+
+(* consequence: node ids are unique across the whole table *)
+Theorem table_ids_unique : forall sha ownid c p t0 ops,
+  NoDup (all_ids (tb (tab (run sha (init ownid c p t0) ops)))).
+Proof.
+  intros. destruct (run_sinv sha ops _ (init_sinv ownid c p t0)) as [C F].
+  exact (tinv_unique _ 0 C F).
+Qed.
+Print Assumptions table_ids_unique.
+
+(* DhtBucket::get_mid_point (byte-wise) on a prefix interval of 2^k >= 2 ids is lo + 2^(k-1) - 1 *)
+Theorem mid_point_of_prefix_interval : forall lo hi k, 1 <= k -> k <= idbits -> prefix_range lo hi k ->
+  hi + 1 <= idspace -> mid_point lo hi = lo + 2 ^ (k - 1) - 1.
+Proof. exact mid_point_prefix. Qed.
+Print Assumptions mid_point_of_prefix_interval.
+
+(* add_terminates: on a table satisfying the invariant, add_node_to_bucket with fuel 170 never runs
+   out of fuel (each split halves the bucket under consideration; at most 160 halvings) *)
+Theorem add_terminates : forall ownid tm nd t, tinv (tb t) -> lookup (nid nd) (tb t) = None ->
+  add_node_to_bucket ownid tm nd t <> LFuel.
+Proof.
+  intros ownid tm nd t T L E. pose proof (add_node_tinv ownid tm nd t T L) as H. rewrite E in H. exact H.
+Qed.
+Print Assumptions add_terminates.
+
+(* token_window, acceptance: a token is accepted iff it is H(secret, ip)[0..size_token] for the
+   current or the previous secret; announce_peer is accepted iff its token is *)
+Theorem token_window_accept : forall sha, (forall x, length (sha x) = 20%nat) -> forall s tok ip,
+  token_valid sha s tok ip = true <-> (tok = token_for sha (cur s) ip \/ tok = token_for sha (prev s) ip).
+Proof. exact token_valid_spec. Qed.
+Print Assumptions token_window_accept.
+
+Theorem announce_accepted_iff_token_valid : forall sha s ih ip port tok, err s = false ->
+  (snd (step sha s (OAnnounce ih ip port tok)) = Rnone <-> token_valid sha s tok ip = true) /\
+  (snd (step sha s (OAnnounce ih ip port tok)) = Rerr 1 <-> token_valid sha s tok ip = false) /\
+  (token_valid sha s tok ip = false -> fst (step sha s (OAnnounce ih ip port tok)) = s).
+Proof. exact announce_accept_iff. Qed.
+Print Assumptions announce_accepted_iff_token_valid.
+
+(* token_window, lifetime: over any op list a token issued now is still accepted after zero or one
+   rotation, and after two or more only if it collides with a token of the two newest secrets *)
+Theorem token_window_lifetime : forall sha, (forall x, length (sha x) = 20%nat) -> forall s ip ops,
+  err (run sha s ops) = false ->
+  let tok := token_for sha (cur s) ip in
+  match rev (secrets ops) with
+  | [] => token_valid sha (run sha s ops) tok ip = true
+  | [_] => token_valid sha (run sha s ops) tok ip = true
+  | s2 :: s1 :: _ => token_valid sha (run sha s ops) tok ip = true <-> (tok = token_for sha s2 ip \/ tok = token_for sha s1 ip)
+  end.
+Proof. exact token_lifetime. Qed.
+Print Assumptions token_window_lifetime.
+
+(* announce_then_get as stated by the property (network byte order) is false of the code *)
+Theorem announce_then_get_refuted :
+  exists (sha : list N -> list N) s ih ip port tok ip2 rnd,
+    (forall x, length (sha x) = 20%nat) /\ err s = false /\ token_valid sha s tok ip = true /\ port16 port <> 0 /\
+    let s1 := fst (step sha s (OAnnounce ih ip port tok)) in
+    exists t vals, snd (step sha s1 (OGetPeers ih ip2 rnd)) = Rpeers t vals /\
+      ~ In (ipbytes ip ++ [(port / 256) mod 256; port mod 256]) vals /\
+      vals = [ipbytes ip ++ [port mod 256; (port / 256) mod 256]].
+Proof. exact ProofsTokens.announce_then_get_refuted. Qed.
+Print Assumptions announce_then_get_refuted.
+
+(* what does hold: the announced peer is returned, with the port field in HOST byte order *)
+Theorem announce_then_get_hostorder : forall sha s ih ip port tok ip2 rnd,
+  err s = false -> token_valid sha s tok ip = true -> port16 port <> 0 ->
+  let s1 := fst (step sha s (OAnnounce ih ip port tok)) in
+  (forall l, get_tracker ih (trackers s1) = Some l -> lenN l <= Params.dht_tracker_max_peers) ->
+  exists t vals, snd (step sha s1 (OGetPeers ih ip2 rnd)) = Rpeers t vals /\
+                 In (ipbytes ip ++ [port16 port mod 256; (port16 port / 256) mod 256]) vals.
+Proof. exact ProofsTokens.announce_then_get_hostorder. Qed.
+Print Assumptions announce_then_get_hostorder.
+
+(* "counters = counts" (DESIGN.md) is false for the bad counter: witness op list after which a bucket
+   has m_bad = 1 and no bad node (m_good stays exact in the witness) *)
+Theorem counters_exact_refuted :
+  exists sha ops, let s := run sha (init (2 ^ 159 + 1) 1 2 34560000) ops in
+    err s = false /\
+    exists b, In b (tb (tab s)) /\ bbad b = 1 /\ count is_bad (bnodes b) = 0 /\ bgood b = count is_good (bnodes b).
+Proof. exact ProofsCounters.counters_exact_refuted. Qed.
+Print Assumptions counters_exact_refuted.
